@@ -8,8 +8,11 @@
    `Exact m` : the file is exactly the image of memory (save (mem m) = Some (disk m));
    `reload_equiv m` : re-opening the group yields the same observable list (identifier, status if sent, metadata,
    request body unless successful); `skeleton m` : identifiers and metadata on disk are those of memory.
-   The statement now holds in FULL: every history, every job, every server script, operations returning or raising;
-   no admissibility condition and no ghost hypothesis. *)
+   `WExact w` : several groups — every live group object is exact with respect to the file of its own name.
+   The statement holds in FULL: every history over every public entry point of JobGroup (get_results and
+   track_progress included), every job, every server script, operations returning or raising; no admissibility
+   condition, no ghost hypothesis. The fourth repair, 65ec16e2 (get_results writes once more on leaving its per-job
+   loop iff the jobs differ), is part of `cur`; `before_65ec16e2` is the configuration of its historical witness. *)
 From PV Require Import Model.JobGroup Proofs.JobGroupP.
 Require Import List ZArith.
 Import ListNotations.
@@ -24,12 +27,19 @@ Theorem C19_every_operation_preserves : forall m o m' out,
 Proof. exact step_exact. Qed.
 Print Assumptions C19_every_operation_preserves.
 
-(* the hypotheses of the step theorem hold initially (and then forever, by the theorem itself) *)
+(* from ANY state in which jobs are well-formed, identifiers/metadata on disk are those of memory and the file is the
+   image of well-formed jobs (e.g. a directory left by an older version), these three facts are preserved *)
+Theorem C19_every_operation_preserves_weakly : forall m o m' out, WInv m -> step cur m o = (m', out) -> WInv m'.
+Proof. exact step_weak. Qed.
+Print Assumptions C19_every_operation_preserves_weakly.
+
+(* the hypotheses of the step theorem hold initially *)
 Theorem C19_initial_state : forall sc, Forall good (mem (init sc)) /\ Exact (init sc).
 Proof. exact init_good. Qed.
 Print Assumptions C19_initial_state.
 
-Theorem C19_accepted_ids_survive : forall sc ops, skeleton (run cur (init sc) ops).
+Theorem C19_accepted_ids_survive : forall sc ops,
+  skeleton (run cur (init sc) ops) /\ Exact (fst (step cur (run cur (init sc) ops) OReopen)).
 Proof. exact accepted_ids_survive. Qed.
 Print Assumptions C19_accepted_ids_survive.
 
@@ -39,9 +49,31 @@ Theorem C19_request_same_after_reopen : forall sc ops,
 Proof. exact request_same_after_reopen. Qed.
 Print Assumptions C19_request_same_after_reopen.
 
+(* several groups: a file store indexed by name *)
+Theorem C19_world_disk_matches_memory : forall ops sc, WExact (mrun cur (winit sc) ops).
+Proof. exact world_disk_matches_memory. Qed.
+Print Assumptions C19_world_disk_matches_memory.
+
+Theorem C19_world_operation_preserves : forall w o w' out, WExact w -> mstep cur w o = (w', out) -> WExact w'.
+Proof. exact mstep_exact. Qed.
+Print Assumptions C19_world_operation_preserves.
+
+(* an operation about the name n neither reads nor writes anything stored under another name *)
+Theorem C19_other_names_untouched : forall w o w' out n n', mop_name o = Some n -> n <> n' -> mstep cur w o = (w', out) ->
+  sget n' (files w') = sget n' (files w) /\ sget n' (handles w') = sget n' (handles w).
+Proof. exact mstep_frame. Qed.
+Print Assumptions C19_other_names_untouched.
+
+(* re-opening by the same name returns what was written under that name (and writes nothing) *)
+Theorem C19_reopen_by_name : forall w n l w' out,
+  WExact w -> sget n (handles w) = Some l -> mstep cur w (MOpen n) = (w', out) ->
+  files w' = files w /\ exists l', sget n (handles w') = Some l' /\ map obs l' = map obs l.
+Proof. exact reopen_by_name. Qed.
+Print Assumptions C19_reopen_by_name.
+
 (* leaving the launch loop: one more write iff the image differs; memory, script and outcome untouched *)
 Theorem C19_write_on_exit : forall m o m' o', Forall good (mem m) -> finish cur (m, o) = (m', o') ->
-  mem m' = mem m /\ scr m' = scr m /\ o' = o /\ Exact m'.
+  mem m' = mem m /\ scr m' = scr m /\ o' = o /\ Exact m' /\ udirty m' = false.
 Proof. exact finish_exact. Qed.
 Print Assumptions C19_write_on_exit.
 
@@ -154,3 +186,18 @@ Theorem C19_classic_run_same_writes :
   writes (run cur (init s) h) = writes (run before_9afb11d4 (init s) h) /\ writes (run cur (init s) h) = 6%nat.
 Proof. exact classic_run_same_writes. Qed.
 Print Assumptions C19_classic_run_same_writes.
+
+(* HISTORICAL counterexample, about the code before 65ec16e2 *)
+Theorem C19_disk_matches_memory_refuted_get_results_old_code :
+  exists ops sc, snd (step before_65ec16e2 (run before_65ec16e2 (init sc) (removelast ops)) (last ops OReopen)) = Returned /\
+                 ~ reload_equiv_r (run before_65ec16e2 (init sc) ops).
+Proof. exact disk_matches_memory_refuted_get_results_old_code. Qed.
+Print Assumptions C19_disk_matches_memory_refuted_get_results_old_code.
+
+Theorem C19_repaired_get_results_witness :
+  let h := [OAdd (sp 1) true None false; OGetResults] in
+  let s := [AOk 10%Z WAITING; AOk 11%Z UNKNOWN; AOk 12%Z SUCCESS; AOk 0%Z WAITING] in
+  snd (step cur (run cur (init s) (removelast h)) (last h OReopen)) = Returned /\
+  writes (run cur (init s) h) = S (writes (run before_65ec16e2 (init s) h)).
+Proof. exact repaired_get_results_witness. Qed.
+Print Assumptions C19_repaired_get_results_witness.
